@@ -18,6 +18,6 @@ for sid in sorted(x for x in os.listdir(V + '/seeded') if os.path.exists(V + '/s
 table = '| seed | files | change (first line of its notes) | status | rules of its own property that fire | other properties that also fire |\n|---|---|---|---|---|---|\n' + '\n'.join(rows)
 p = V + '/DESIGN.md'
 s = open(p).read()
-s = re.sub(r'<!-- SEEDTABLE -->.*?<!-- /SEEDTABLE -->', '<!-- SEEDTABLE -->\n' + table + '\n<!-- /SEEDTABLE -->', s, flags=re.S)
+s = re.sub(r'<!-- SEEDTABLE -->.*?<!-- /SEEDTABLE -->', lambda m_: '<!-- SEEDTABLE -->\n' + table + '\n<!-- /SEEDTABLE -->', s, flags=re.S)
 open(p, 'w').write(s)
 print(len(rows), 'rows')
